@@ -4,22 +4,21 @@
    (real semantics of Sem/Eval.v, ANY interpretation of the function symbols; the only law assumed of powers is
    x ** -1 = 1/x, proved for the concrete power in C06_power_law_instance).
    FULL STATEMENT (property text): for OUTPUT and INPUT conversions of a state variable, the free variable, a constant
-   or a computed variable, and any sequence of them.  PROVED here for all models, valuations and factors: OUTPUT (any
-   variable, incl. states and time) and INPUT of any variable that is neither a state nor the free variable, plus the
-   no-op, error and bookkeeping clauses, AND INPUT of a state variable (ODE moved to a new variable, new ODE for the
-   converted state, derivative references replaced), AND INPUT of the free variable for the specification-level system
-   free_system (every ODE d y/d v = R moved to w = R, new ODE d y/d n = w / cf, every reference to d y/d v replaced by w):
-   C06_input_free_spec_equiv.  NOT PROVED (hence "_partial"): that the imperative fold of Model/ConvertVar.v reaches
-   free_system up to the order of the equations -- the interpreter evaluates exactly that, and the premises of the
-   theorem, on every correspondence case (free_spec_code); it is tied by the correspondence check and decided by the
-   numeric oracle.  CLOSURE UNDER SEQUENCES is proved (C06_sequence_equiv_partial) for histories in which no step is an
-   INPUT conversion of the free variable: the premises of every step are one boolean (step_ok) that the interpreter
-   evaluates before every conversion of every correspondence case.
-   The syntactic premises (fresh_var / fresh_atom / NoDup of left-hand sides) say that the next variable indices are
-   new and no variable is defined twice; the interpreter evaluates them on every correspondence case (premises_hold). *)
+   or a computed variable, and any sequence of them.  PROVED for all models, valuations and factors: OUTPUT (any variable),
+   INPUT of a constant / computed variable, INPUT of a state variable (ODE moved to a new variable, new ODE for the
+   converted state, derivative references replaced), INPUT of the free variable (every ODE  d y/d v = R  moved to  w = R,
+   new ODE  d y/d n = w / cf, every reference to d y/d v replaced by w: C06_input_free_equiv, through the refinement of the
+   imperative fold to the specification-level system, Proofs/C06FoldP.v, and the equivalence of that system,
+   C06_input_free_spec_equiv), and ANY SEQUENCE of such conversions (C06_sequence_equiv).
+   The theorems named "_partial" carry syntactic premises; all premises of a step are collected in the computable
+   predicate step_ok (next variable indices fresh, left-hand sides distinct, indices in range, all ODEs with respect to the
+   one free variable: C06_step_ok_meaning), which the interpreter evaluates before EVERY conversion of EVERY correspondence
+   case and which must be true (a false value is reported as a broken correspondence).  What is not proved: that
+   well-formed models always satisfy step_ok (it is checked, case by case), and conversions whose factor is irrational
+   (the model returns an error for them; the conversion factor is a positive rational in every theorem). *)
 From Coq Require Import List ZArith QArith Bool Reals Qreals.
 From Coq Require Import Permutation.
-From Verif Require Import Sexp UnitAlg UnitAlgP Expr Eval ModelSM ConvertVar C06EvalP C06P C06ShapeP C06ReplaceP C06StateP C06FreeP C06MainP C06SeqP.
+From Verif Require Import Sexp UnitAlg UnitAlgP Expr Eval ModelSM ConvertVar C06EvalP C06P C06ShapeP C06ReplaceP C06StateP C06FreeP C06FoldP C06FreeMainP C06MainP C06SeqP.
 Import ListNotations.
 Open Scope R_scope.
 
@@ -63,25 +62,25 @@ Theorem C06_input_state_equiv_partial : forall fsem psem csem,
 Proof. exact input_state_conversion. Qed.
 Print Assumptions C06_input_state_equiv_partial.
 
-(* ANY SEQUENCE of conversions (OUTPUT of anything, INPUT of constants, computed variables and states), each succeeding and
+(* ANY SEQUENCE of conversions (OUTPUT of anything, INPUT of constants, computed variables, states and the free variable), each succeeding and
    meeting step_ok in the state it is applied to (or returning the variable itself: nothing to convert): every solution of the original system extends to a solution of the final
    system that gives every original variable (and every derivative atom of an original variable) the same value, and
    every solution of the final system is -- with the very same values of all variables -- a solution of the original one. *)
-Theorem C06_sequence_equiv_partial : forall fsem psem csem,
+Theorem C06_sequence_equiv : forall fsem psem csem,
   (forall x, x <> 0 -> psem x (Q2R (-1 # 1)) = Some (/ x)) ->
   forall s s'', Steps s s'' ->
   (forall nu dl, Sat fsem psem csem nu dl (ceqs s) -> exists nu' dl', Sat fsem psem csem nu' dl' (ceqs s'') /\
      (forall i, (i < length (cvars s))%nat -> nu' i = nu i) /\
-     (forall y t, (y < length (cvars s))%nat -> dl' y t = dl y t)) /\
+     (forall y t, (y < length (cvars s))%nat -> (t < length (cvars s))%nat -> dl' y t = dl y t)) /\
   (forall nu dl, Sat fsem psem csem nu dl (ceqs s'') -> exists dl0, Sat fsem psem csem nu dl0 (ceqs s)).
 Proof. exact sequence_equiv. Qed.
-Print Assumptions C06_sequence_equiv_partial.
+Print Assumptions C06_sequence_equiv.
 
 (* what step_ok demands, spelled out (it is a computable predicate of the state before the step) *)
 Theorem C06_step_ok_meaning : forall s v d, step_ok s v d = true ->
   premises_hold s = true /\ (v < length (cvars s))%nat /\
-  (d = DInput -> (forall t, free_var s = Some t -> t <> v) /\
-                 (forall ode, ode_def s v = Some ode -> var_def s v = None)).
+  (d = DInput -> (free_var s = Some v -> is_state s v = false /\ var_def s v = None /\ free_ok s v = true) /\
+                 (free_var s <> Some v -> forall ode, ode_def s v = Some ode -> var_def s v = None)).
 Proof. exact step_ok_meaning. Qed.
 Print Assumptions C06_step_ok_meaning.
 
@@ -110,6 +109,42 @@ Theorem C06_input_free_spec_equiv : forall fsem psem csem,
    nu n = nu v * k /\ Forall (fun o => dl (fst (fst o)) n = nu (snd o) / k) os).
 Proof. exact input_free_equiv. Qed.
 Print Assumptions C06_input_free_spec_equiv.
+
+(* INPUT conversion of the FREE variable by convert_variable itself: there are new variables w_y, one per ODE, such that
+   every solution of the original system extends to a solution of the new one with n = v * k, w_y = d y/d v and
+   d y/d n = (d y/d v) / k, and every solution of the new system is, with d y/d v read off w_y, a solution of the original
+   one and satisfies the same relations.  os lists (y, right-hand side of its ODE, w_y). *)
+Theorem C06_input_free_equiv : forall fsem psem csem,
+  (forall x, x <> 0 -> psem x (Q2R (-1 # 1)) = Some (/ x)) ->
+  forall s v target mv s' n,
+  convert_variable s v target DInput mv = COk (s', n) -> n <> v ->
+  free_var s = Some v -> is_state s v = false -> var_def s v = None -> free_ok s v = true ->
+  exists k os, 0 < k /\
+    Permutation (ys_of os) (ys_of (odes_of (ceqs s))) /\ ws_of os = seq (S (length (cvars s))) (length os) /\
+    n = length (cvars s) /\
+    forall nu dl,
+    (Sat fsem psem csem nu dl (ceqs s) ->
+     Sat fsem psem csem (upd_ws (upd nu n (nu v * k)) os (fun y => dl y v)) (updd_col dl os n (fun y => dl y v / k)) (ceqs s')) /\
+    (Sat fsem psem csem nu dl (ceqs s') ->
+     Sat fsem psem csem nu (updd_col dl os v (fun y => nu (w_of os y))) (ceqs s) /\
+     nu n = nu v * k /\ Forall (fun o => dl (fst (fst o)) n = nu (snd o) / k) os).
+Proof. exact input_free_conversion. Qed.
+Print Assumptions C06_input_free_equiv.
+
+(* the refinement used above: up to the order of the equations, convert_variable produces the specification system *)
+Theorem C06_input_free_refines_spec : forall s v target mv s' n,
+  convert_variable s v target DInput mv = COk (s', n) -> n <> v ->
+  free_var s = Some v -> is_state s v = false -> var_def s v = None -> free_ok s v = true ->
+  exists cfq os,
+    (0 < cfq)%Q /\ n = length (cvars s) /\
+    let cf := EQty (cqnext s) cfq (Z.of_nat (length (cunits s))) in
+    let plain := filter (fun q => negb (is_ode q)) (ceqs s) in
+    Permutation (ceqs s) (orig_system plain os v) /\
+    Permutation (ceqs s') (free_system plain os v n cf) /\
+    ws_of os = seq (S (length (cvars s))) (length os) /\ NoDup (ys_of os) /\
+    Permutation (ys_of os) (ys_of (odes_of (ceqs s))) /\ length os = length (odes_of (ceqs s)).
+Proof. exact convert_input_free_refines. Qed.
+Print Assumptions C06_input_free_refines_spec.
 
 (* the premises are satisfiable: time 0, states 1 and 2 with d y1/dt = y2 * d y2/dt and d y2/dt = -y1, one plain equation *)
 Theorem C06_input_free_spec_premises_satisfiable : exists plain os v n,
